@@ -259,3 +259,32 @@ func appendTarget(info *types.Info, s ast.Stmt) (types.Object, []ast.Expr) {
 	}
 	return lobj, call.Args[1:]
 }
+
+// ast_inspectAssign classifies every assignment to local v in fi: good when the
+// right-hand side is a call to KnownNetworkInstances or a composite literal
+// with at most one element.
+func ast_inspectAssign(info *types.Info, fi *FuncInfo, v *types.Var, report func(rhs string, good bool)) {
+	ast.Inspect(fi.Decl.Body, func(n ast.Node) bool {
+		as, ok := n.(*ast.AssignStmt)
+		if !ok || len(as.Lhs) != len(as.Rhs) {
+			return true
+		}
+		for i, l := range as.Lhs {
+			if objOfIdent(info, l) != v {
+				continue
+			}
+			r := ast.Unparen(as.Rhs[i])
+			good := false
+			switch x := r.(type) {
+			case *ast.CallExpr:
+				if f, ok := calleeObj(info, x).(*types.Func); ok && f.Name() == "KnownNetworkInstances" {
+					good = true
+				}
+			case *ast.CompositeLit:
+				good = len(x.Elts) <= 1
+			}
+			report(types.ExprString(r), good)
+		}
+		return true
+	})
+}
